@@ -250,18 +250,50 @@ func runPool(r *rand.Rand, stats map[string]int) string {
 		return nil
 	}
 	d := workerpool.NewWorkerPoolDispatcher(mapRegistry{"w": &fn})
-	target := 1 + r.Intn(4)
-	lg.add("PAdd", target)
-	d.WorkerPool.Add(target)
 	running := map[int]bool{}
 	waiting := map[int]bool{}
 	cancels := map[int]context.CancelFunc{}
-	retired := 0
 	var wg sync.WaitGroup
 	next := 0
-	capacity := func() int { return target + retired }
-	settleStarts := func(want int) bool {
-		return lg.waitFor(func() bool { return lg.count("PStart") >= want && lg.count("PReturnOk") >= want })
+	ok := true
+	// the pool's own counters, used only to decide whether another start is imminent
+	poolLen := func() (alive, sleeping, active int) {
+		d.WorkerPool.WaitUntil(func(a, s, ac int) bool {
+			alive, sleeping, active = a, s, ac
+			return true
+		})
+		return
+	}
+	absorb := func() {
+		for k := range waiting {
+			if lg.has(fmt.Sprintf("PStart %d%%nat", k)) && lg.has(fmt.Sprintf("PReturnOk %d%%nat", k)) {
+				delete(waiting, k)
+				running[k] = true
+			}
+		}
+	}
+	// settle: poll until the pool is quiescent: every accepted call is known to the harness, workers of
+	// finished calls are idle again, idle removed workers are gone, and no idle live worker faces a waiting call
+	settle := func() {
+		deadline := time.Now().Add(waitLong)
+		for {
+			absorb()
+			alive, sleeping, active := poolLen()
+			if active == len(running) && sleeping <= active {
+				idleLive := alive - (active - sleeping)
+				if idleLive <= 0 || len(waiting) == 0 {
+					return
+				}
+			}
+			if time.Now().After(deadline) {
+				ok = false
+				return
+			}
+			select {
+			case <-lg.ch:
+			case <-time.After(time.Millisecond):
+			}
+		}
 	}
 	launch := func() {
 		k := next
@@ -292,41 +324,25 @@ func runPool(r *rand.Rand, stats map[string]int) string {
 		<-called
 		waiting[k] = true
 	}
-	// promote: after capacity became available, waiting calls start
-	promote := func() bool {
-		ok := true
-		for len(running) < capacity() {
-			var cand []int
-			for k := range waiting {
-				cand = append(cand, k)
-			}
-			if len(cand) == 0 {
-				break
-			}
-			want := lg.count("PStart") + 1
-			if !settleStarts(want) {
-				ok = false
-				break
-			}
-			// find which one started
-			for _, k := range cand {
-				if lg.has(fmt.Sprintf("PStart %d%%nat", k)) && waiting[k] {
-					delete(waiting, k)
-					running[k] = true
-					break
-				}
-			}
+	finish := func(k int) {
+		gmu.Lock()
+		close(gates[k])
+		gmu.Unlock()
+		if !lg.waitFor(func() bool { return lg.has(fmt.Sprintf("PFinish %d%%nat", k)) }) {
+			ok = false
 		}
-		return ok
+		delete(running, k)
 	}
+	n0 := 1 + r.Intn(4)
+	lg.add("PAdd", n0)
+	d.WorkerPool.Add(n0)
 	steps := 12 + r.Intn(14)
-	okAll := true
-	for i := 0; i < steps && okAll; i++ {
+	for i := 0; i < steps && ok; i++ {
 		switch x := r.Intn(100); {
 		case x < 40 && next < 12:
 			launch()
 			stats["pool:launch"]++
-			okAll = promote()
+			settle()
 		case x < 65:
 			var rs []int
 			for k := range running {
@@ -335,33 +351,23 @@ func runPool(r *rand.Rand, stats map[string]int) string {
 			if len(rs) == 0 {
 				continue
 			}
-			k := rs[r.Intn(len(rs))]
-			wasOver := len(running) > target
-			gmu.Lock()
-			close(gates[k])
-			gmu.Unlock()
-			if !lg.waitFor(func() bool { return lg.has(fmt.Sprintf("PFinish %d%%nat", k)) }) {
-				okAll = false
-			}
-			delete(running, k)
-			if wasOver && retired > 0 {
-				retired--
-			}
+			finish(rs[r.Intn(len(rs))])
 			stats["pool:finish"]++
-			okAll = okAll && promote()
+			settle()
 		case x < 77:
 			var ws []int
 			for k := range waiting {
 				ws = append(ws, k)
 			}
-			if len(ws) == 0 || len(running) < capacity() {
+			if len(ws) == 0 {
 				continue
 			}
+			// after settle() a waiting call has no idle live worker: cancelling it must make Dispatch return
 			k := ws[r.Intn(len(ws))]
 			lg.add("PCancel", k)
 			cancels[k]()
 			if !lg.waitFor(func() bool { return lg.has(fmt.Sprintf("PReturnCtx %d%%nat", k)) }) {
-				okAll = false
+				ok = false
 			}
 			delete(waiting, k)
 			stats["pool:cancel-waiting"]++
@@ -369,67 +375,29 @@ func runPool(r *rand.Rand, stats map[string]int) string {
 			dlt := 1 + r.Intn(2)
 			lg.add("PAdd", dlt)
 			d.WorkerPool.Add(dlt)
-			target += dlt
 			stats["pool:add"]++
-			okAll = promote()
+			settle()
 		default:
-			if target == 0 {
-				continue
-			}
 			dlt := 1 + r.Intn(2)
-			if dlt > target {
-				dlt = target
-			}
 			lg.add("PRemove", dlt)
 			d.WorkerPool.Remove(dlt)
-			target -= dlt
-			over := len(running) - target
-			if over < 0 {
-				over = 0
-			}
-			if over > retired {
-				retired = over
-			}
-			want := retired
-			done := make(chan struct{})
-			go func() {
-				d.WorkerPool.WaitUntil(func(alive, sleeping, active int) bool { return sleeping <= want })
-				close(done)
-			}()
-			select {
-			case <-done:
-			case <-time.After(waitLong):
-				okAll = false
-			}
 			stats["pool:remove"]++
+			settle()
 		}
 	}
-	// wind down: make sure there is a worker, release everything, cancel what still waits
-	if target == 0 {
-		lg.add("PAdd", 1)
-		d.WorkerPool.Add(1)
-		target = 1
-		promote()
-	}
-	for len(running) > 0 || len(waiting) > 0 {
-		progressed := false
-		for k := range running {
-			gmu.Lock()
-			close(gates[k])
-			gmu.Unlock()
-			lg.waitFor(func() bool { return lg.has(fmt.Sprintf("PFinish %d%%nat", k)) })
-			if len(running) > target && retired > 0 {
-				retired--
-			}
-			delete(running, k)
-			progressed = true
+	// wind down: make sure there is a worker, run everything to completion
+	lg.add("PAdd", 1)
+	d.WorkerPool.Add(1)
+	settle()
+	for ok && (len(running) > 0 || len(waiting) > 0) {
+		if len(running) == 0 {
 			break
 		}
-		if !promote() || !progressed {
-			if !progressed && len(waiting) > 0 && len(running) == 0 {
-				break
-			}
+		for k := range running {
+			finish(k)
+			break
 		}
+		settle()
 	}
 	doneAll := make(chan struct{})
 	go func() { wg.Wait(); close(doneAll) }()
@@ -441,6 +409,9 @@ func runPool(r *rand.Rand, stats map[string]int) string {
 	d.WorkerPool.Kill()
 	lg.mu.Lock()
 	defer lg.mu.Unlock()
+	if !ok {
+		stats["pool:harness-timeouts"]++
+	}
 	return "[" + strings.Join(lg.evs, "; ") + "]"
 }
 
